@@ -2,3 +2,4 @@
 pub mod lockdep;
 pub mod utf16;
 pub mod luavm;
+pub mod lspshape;
